@@ -230,7 +230,7 @@ def run(ctx):
     ctx.assumptions += sc.ASSUME
     sc.run_families(ctx, scenarios(ctx), "second-caller")
     sc.run_families(ctx, fe_scenarios(ctx), "frontend-second")
-    sc.run_families(ctx, forced.scenarios('c10', ('double-reset', 'late-release', 'final-release')), "forced-schedule")
+    sc.run_families(ctx, forced.scenarios('c10', ('double-reset', 'late-release', 'final-release', 'late-done-ok', 'late-done-fail')), "forced-schedule")
     ctx.coverage["exhaustive"] = False
 
 
